@@ -543,8 +543,10 @@ retry:
 func doBinaryOp(a constant.Value, tok token.Token, b constant.Value, ctx []*internal.Elem) constant.Value {
 	switch binaryOpKinds[tok] {
 	case binaryOpNormal:
+		checkConstKinds(a, tok, b, ctx)
 		return constant.BinaryOp(a, tok, b)
 	case binaryOpCompare:
+		checkConstKinds(a, tok, b, ctx)
 		return constant.MakeBool(constant.Compare(a, tok, b))
 	default:
 		a, b = constant.ToInt(a), constant.ToInt(b)
@@ -555,6 +557,17 @@ func doBinaryOp(a constant.Value, tok token.Token, b constant.Value, ctx []*inte
 			return constant.Shift(a, tok, uint(s))
 		}
 		panic(errors.New("shift count too large (overflow)"))
+	}
+}
+
+// checkConstKinds reports operands that go/constant cannot combine (a boolean with a string,
+// a number with a string, ...) as an error; constant.BinaryOp/Compare fail a type assertion on them.
+func checkConstKinds(a constant.Value, tok token.Token, b constant.Value, ctx []*internal.Elem) {
+	isNum := func(k constant.Kind) bool {
+		return k == constant.Int || k == constant.Float || k == constant.Complex
+	}
+	if ka, kb := a.Kind(), b.Kind(); ka != kb && !(isNum(ka) && isNum(kb)) {
+		panic(fmt.Errorf("invalid operation: operator %v (mismatched types %v and %v)", tok, ctx[0].Type, ctx[1].Type))
 	}
 }
 
